@@ -147,23 +147,24 @@ def restart(ck, mod, tier, parsed, found):
     """restart patterns re-open, besides available jobs, exactly the jobs whose host or status they name"""
     TO = 60; NJ = 2
     ist = [z3.Int('ist%d' % i) for i in range(NJ)]; ehc = [z3.Int('ehc%d' % i) for i in range(NJ)]
-    dom = [z3.And(x >= 0, x <= 3) for x in ist] + [z3.Or(x == THIS, x == OTHER, x == ord('Y')) for x in ehc]
+    ehh = [z3.Int('ehh%d' % i) for i in range(NJ)]          # the job entry carries a <host> tag or not
+    dom = [z3.And(x >= 0, x <= 3) for x in ist] + [z3.Or(x == THIS, x == OTHER, x == ord('Y')) for x in ehc] + [z3.And(x >= 0, x <= 1) for x in ehh]
     for which, arg, label in ((1, FAILED, 'stat(FAILED)'), (0, ord('Y'), 'host(Y:1)')):
         trace = []
         def body(it):
             for c in dom: it.assume(c)
             po = it.call('@h_po_setup', [2, 5, 1]); it.call('@h_po_add_restart', [po, which, arg])
-            internal = mk_jobs(it, [(ist[i], 1, ehc[i]) for i in range(NJ)]); it.call('@h_po_set_jobs', [po, internal])
-            filev = mk_jobs(it, [(ist[i], 1, ehc[i]) for i in range(NJ)]); it.call('@h_disk_set', [filev])
+            internal = mk_jobs(it, [(ist[i], ehh[i], ehc[i]) for i in range(NJ)]); it.call('@h_po_set_jobs', [po, internal])
+            filev = mk_jobs(it, [(ist[i], ehh[i], ehc[i]) for i in range(NJ)]); it.call('@h_disk_set', [filev])
             it.call('@h_po_sync', [po])
             nproc = sgn64(it.call('@h_po_ntoproc', [po])); return [sgn64(it.call('@h_po_toproc', [po, k])) for k in range(nproc)]
         res, st = explore(mod, po_models(trace), body, parsed=parsed, max_paths=4000)
         q = []
         for it, proc in res:
             for i in range(NJ):
-                want = z3.Or(ist[i] == AVAILABLE, (ist[i] == arg) if which == 1 else (ehc[i] == arg))
+                want = z3.Or(ist[i] == AVAILABLE, (ist[i] == arg) if which == 1 else z3.And(ehh[i] == 1, ehc[i] == arg))
                 q.append((list(it.pc), [want != z3.BoolVal(i in proc)]))
-        agg(ck, 'restart pattern %s: a job is (re)started iff it is AVAILABLE or named by the pattern' % label, q, TO, found, 'restart')
+        agg(ck, 'restart pattern %s, job entries with or without a host tag: a job is (re)started iff it is AVAILABLE or named by the pattern' % label, q, TO, found, 'restart')
 
 def merge_payload(ck, mod, tier, parsed, found):
     """results reported by another process (status, output, error) are all taken over by the merge"""
